@@ -288,6 +288,10 @@ def _sort_by_colour_shape(fs):
         return None, "the loop runs over `%s`, not over every colour 0 .. max(color_map)" % unparse(lp.iter)[:80]
     body = [s for s in S if s.loops == (lp,) and not s.guards]
     cnt = [s for s in body if s.op == "Add=" and isinstance(s.tnode, ast.Name)]
+    if not cnt:
+        dec = [s for s in body if s.op in ("Sub=", "Mult=") and isinstance(s.tnode, ast.Name)]
+        if len(dec) == 1:
+            return False, "the running position `%s` is updated with %s instead of advancing by the number of elements of the colour: the colour classes overlap in the sorted index array" % (dec[0].target, dec[0].op)
     if len(cnt) != 1:
         return None, "no single running counter in the colour loop"
     CNT = cnt[0].target
